@@ -7,7 +7,10 @@ home, in its own session (the parent kills the whole process group afterwards).
 argv[1] = JSON spec
     {"names": [...], "wait": bool, "cycles": k, "program": "sdk"|"pb"|"none",
      "epr": bool, "tmp": dir, "stop_early": [cycle numbers in which stop() follows start() at once],
-     "double_start": [cycle numbers in which start() is called a second time on the running network]}
+     "double_start": [cycle numbers in which start() is called a second time on the running network],
+     "network": optional name of the network (default "default"); for another name the configuration file ALSO holds
+                a network "default" with overlapping node names (all but the last, plus "Zed") on other free ports,
+                and the ports of that other network are observed too (nobody may ever listen there)}
 stdout  = one JSON observation per line, each {"ev": ..., ...}; the parent is
 the judge, nothing is decided here.
 
@@ -98,17 +101,28 @@ def main():
     watch_parent()
     names = spec["names"]
     tmp = spec["tmp"]
-    ports = free_ports(3 * len(names))
-    cfg = {"default": {"nodes": {n: {"app_socket": ["localhost", ports[3 * i]],
-                                      "qnodeos_socket": ["localhost", ports[3 * i + 1]],
-                                      "vnode_socket": ["localhost", ports[3 * i + 2]]}
-                                  for i, n in enumerate(names)}, "topology": None}}
+    netname = spec.get("network") or "default"
+    others = [] if netname == "default" else names[:max(1, len(names) - 1)] + ["Zed"]
+    ports = free_ports(3 * (len(names) + len(others)))
+
+    def net_cfg(nodes, off):
+        return {"nodes": {n: {"app_socket": ["localhost", ports[off + 3 * i]],
+                              "qnodeos_socket": ["localhost", ports[off + 3 * i + 1]],
+                              "vnode_socket": ["localhost", ports[off + 3 * i + 2]]}
+                          for i, n in enumerate(nodes)}, "topology": None}
+    cfg = {}
+    if others:
+        cfg["default"] = net_cfg(others, 3 * len(names))
+    cfg[netname] = net_cfg(names, 0)
     fn = os.path.join(tmp, "network.json")
     with open(fn, "w") as f:
         json.dump(cfg, f)
     qport = {n: ports[3 * i + 1] for i, n in enumerate(names)}
     vport = {n: ports[3 * i + 2] for i, n in enumerate(names)}
-    out("config", file=fn, qnodeos=qport, vnode=vport)
+    # every port of the OTHER network of the file: "<kind> <node>" -> port
+    foreign = {"%s %s" % (kind, n): e[kind + "_socket"][1] for n, e in cfg.get("default", {}).get("nodes", {}).items()
+               for kind in ("app", "qnodeos", "vnode")} if others else {}
+    out("config", file=fn, network=netname, qnodeos=qport, vnode=vport, foreign=foreign)
 
     from simulaqron.settings import simulaqron_settings
     # the node processes read the path from the settings store of the (scratch) package
@@ -171,7 +185,7 @@ def main():
         from netqasm.sdk.shared_memory import SharedMemoryManager
         try:
             SharedMemoryManager.reset_memories()   # host-side table of netqasm, one entry per app name and process
-            conn = SimulaQronConnection(n, app_id=next_app_id())
+            conn = SimulaQronConnection(n, app_id=next_app_id(), network_name=netname)
             try:
                 q = Qubit(conn)
                 q.X()
@@ -200,7 +214,7 @@ def main():
         def side(me, other, create):
             try:
                 epr = EPRSocket(other)
-                conn = SimulaQronConnection(me, app_id=aid, epr_sockets=[epr])
+                conn = SimulaQronConnection(me, app_id=aid, epr_sockets=[epr], network_name=netname)
                 try:
                     q = (epr.create_keep() if create else epr.recv_keep())[0]
                     m = q.measure()
@@ -232,7 +246,7 @@ def main():
             ever[pid] = nm
         return cs
 
-    net = Network(name="default", network_config_file=fn, new=False)
+    net = Network(name=netname, network_config_file=fn, new=False)
     out("network", nodes=list(net.nodes), nproc=len(net.processes))
     pids_seen = []
     try:
@@ -285,7 +299,12 @@ def main():
                     cc = check_connections()
                 out("connected", cycle=cyc, first=first, final=cc, after=round(time.time() - t1, 2))
                 qacc = {n: port_state(qport[n])[0] for n in names}
-                out("accepting", cycle=cyc, qnodeos=qacc, alive=[p.is_alive() for p in net.processes])
+                vacc = {n: port_state(vport[n])[0] for n in names}
+                # the ports of the other network of the file: somebody accepting there = a process of THIS network
+                # took its address from the wrong network
+                facc = sorted(k for k, port in foreign.items() if port_state(port)[0])
+                out("accepting", cycle=cyc, qnodeos=qacc, vnode=vacc, foreign=facc,
+                    alive=[p.is_alive() for p in net.processes])
                 if spec["program"] in ("sdk", "both"):
                     out("program", cycle=cyc, kind="sdk", results={n: sdk_program(n) for n in names})
                 if spec["program"] in ("pb", "both"):
